@@ -180,8 +180,55 @@ def definition_oracle():
         ws.close()
 
 
+def ownership_items(repo):
+    """get_use_tree combines the ONLY lists and rename maps of the USE statements it walks; the parsed statements
+    belong to the index and must not change during a lookup.  Every container get_use_tree mutates in place
+    (add/discard/pop/update/item assignment on merged_use_list / merged_rename) is one it created on that path (a
+    copy, a literal or the result of a call), never the statement's own list or map."""
+    from contracts.c11 import assigned_names
+    fi = repo.func(f"{UTIL}.get_use_tree")
+    bad, checked = [], 0
+    MUT = {"add", "discard", "remove", "pop", "update", "clear", "append", "extend", "setdefault", "popitem"}
+    WATCH = {"merged_use_list", "merged_rename"}
+
+    def scan(stmts, fresh):
+        nonlocal checked
+        cur = set(fresh)
+        for st_ in stmts:
+            if isinstance(st_, (ast.For, ast.While)):
+                scan(st_.body, cur if isinstance(st_, ast.While) else cur)
+                continue
+            if isinstance(st_, ast.If):
+                scan(st_.body, cur)
+                scan(st_.orelse, cur)
+            elif isinstance(st_, (ast.With, ast.Try)):
+                scan(st_.body, cur)
+            else:
+                for n in ast.walk(st_):
+                    tgt = None
+                    if isinstance(n, ast.Call) and isinstance(n.func, ast.Attribute) and n.func.attr in MUT and isinstance(n.func.value, ast.Name):
+                        tgt = n.func.value.id
+                    if isinstance(n, (ast.Assign, ast.AugAssign)):
+                        for t in (n.targets if isinstance(n, ast.Assign) else [n.target]):
+                            if isinstance(t, ast.Subscript) and isinstance(t.value, ast.Name):
+                                tgt = t.value.id
+                    if tgt in WATCH:
+                        checked += 1
+                        if tgt not in cur:
+                            bad.append({"container": tgt, "mutation": ast.unparse(n)[:80], "where": fi.where(n)})
+            cur = assigned_names([st_], cur)
+    for loop in [n for n in fi.node.body if isinstance(n, ast.For)]:
+        scan(loop.body, set())
+    ok = checked > 0 and not bad
+    return [Item("C05/get_use_tree/ownership.statement_lists_not_mutated", "proved" if ok else "refuted", "structural", 0.0,
+                 where=fi.where(), mode="table", func=fi.qualname,
+                 detail=f"{checked} in-place mutations of merged_use_list / merged_rename: each acts on a container created on that "
+                        "path (copy, literal or call result), so the parsed USE statements are never modified by a lookup",
+                 witness=None if ok else {"mutations_of_shared_containers": bad[:4], "mutations_checked": checked})]
+
+
 def extra(repo, reg, tier, seed):
-    items = structure_items(repo)
+    items = structure_items(repo) + ownership_items(repo)
     w = definition_oracle()
     it = Item("C05/session/native_definition_oracle", "refuted" if w else "bounded-ok", "native-run(bounded)", 0.0, mode="bounded",
               witness=w, confirmed=True if w else None, func=f"{UTIL}.find_in_scope",
